@@ -323,6 +323,10 @@ impl FromStr for U256 {
     type Err = ParseIntError;
 
     fn from_str(s: &str) -> Result<Self, Self::Err> {
+        // The empty string is not a number, in line with the integer types of the standard library
+        if s.is_empty() {
+            return Err(ParseIntError::InvalidDigit);
+        }
         let decimal = s.trim_start_matches('0');
         if Self::MAX_DIGITS < decimal.chars().count() {
             return Err(ParseIntError::PosOverflow);
